@@ -231,6 +231,9 @@ def load_args(tier, seed, variant=""):
 
 
 FAMILIES = {
+    "C01": [("hist", hist_args)],
+    "C03": [("hist", hist_args), ("load", load_args)],
+    "C08": [("hist", hist_args), ("load", load_args)],
     "C11": [("hist", hist_args), ("load", load_args)],
     "C13": [("hist", hist_args), ("load", load_args)],
 }
